@@ -18,13 +18,14 @@ def run(ctx):
     if ctx.quick:
         plan = {"gen": [("eq", ret, dict(family=("lease", "admission", "read"), horizon=10, maxep=1, maxins=2, pick="insertion",
                                          ttls=(10,), ticks=(10,), delays=(0,)), 1)],
-                "drv": [("all", "all", 100, 60, dict(churn_every=50)), ("adm", "admission", 50, 60, {}), ("time", "time", 50, 60, {})]}
+                "drv": [("all", "all", 100, 60, dict(churn_every=50)), ("adm", "admission", 50, 60, {}), ("time", "time", 50, 60, {}), ("aux", "aux", 60, 90, {})]}
     else:
         plan = {"gen": [("eq_ret", ret, dict(family=FAM_ALL, horizon=20, maxep=1, maxins=2, pick="insertion", ttls=(10,)), 1),
                         ("eq_drop", drop, dict(family=FAM_ALL, horizon=20, maxep=2, maxins=2, pick="insertion"), 1)],
                 "drv": [("all", "all", 2500, 80, dict(big_every=40)), ("adm", "admission", 1000, 80, {}), ("time", "time", 1000, 80, {}),
-                        ("oper", "operator", 800, 80, dict(big_every=40))],
+                        ("oper", "operator", 800, 80, dict(big_every=40)), ("aux", "aux", 1500, 120, {})],
                 "gen_cap": 80000}   # measured: 396k / 686k edge schedules; 42 min with a cap of 120000
+    q.aux_mc(ctx)
     q.run_plan(ctx, plan, RULE, reference=True,
                assumptions=["PostgreSQL cannot be run here (no server, nothing fetchable): the claim is memory == SQLite only"])
 
